@@ -599,6 +599,17 @@ func genCase(rt *rapid.T) *Case {
 		}
 		c.Steps = append(c.Steps, st)
 	}
+	// most scripts get what makes them interesting by construction: an injected
+	// failure and, somewhere behind it, a forced reconnect
+	if !nontrivial(c) && rapid.IntRange(0, 4).Draw(rt, "plain") > 0 {
+		at := rapid.IntRange(0, len(c.Steps)).Draw(rt, "fail_at")
+		ins := []Step{{Kind: "fail", M: rapid.SampledFrom(modes).Draw(rt, "mode2")}}
+		rest := append([]Step{}, c.Steps[at:]...)
+		c.Steps = append(append(c.Steps[:at:at], ins...), rest...)
+		at2 := rapid.IntRange(at+1, len(c.Steps)).Draw(rt, "kick_at")
+		rest = append([]Step{}, c.Steps[at2:]...)
+		c.Steps = append(append(c.Steps[:at2:at2], Step{Kind: rapid.SampledFrom([]string{"kick", "reconnect"}).Draw(rt, "kick_kind")}), rest...)
+	}
 	return c
 }
 
@@ -621,7 +632,7 @@ const lostUnsubSig = "subscriptions/lost-unsubscribe-persistent"
 func TestC17(t *testing.T) {
 	run := ev.Start("C17", "fault_enumeration")
 	run.ShrinkTime = "5s"
-	run.Rule("service scripts of 2-14 steps over {Subscribe/Unsubscribe on 4 topics, Publish QoS 0/1, three goroutines calling at once, push a failure mode for the next connection attempt, drop the live connection now, wait until online, Stop(false), Stop(true), Start}, clean session on and off; failure modes: dial refused, CONNECT unsendable, no CONNACK, CONNACK denied, drop after 0-3 packets (0 = during resubscribe), SUBACK with failure code, drop on the first QoS 1 publish before its PUBACK (at most 6 per script, then the fake broker is healthy). Oracle: the service comes online again (a QoS 1 probe completes within 10 s), the fake broker's subscription view for the session equals what all Subscribe/Unsubscribe calls so far imply (every call counts, in call order; only an UNSUBSCRIBE lost on its way to a persistent session counts either way), a completed publish future implies the broker received it, with clean session off every QoS 1 publish future completes once the resumed session's retransmission is acknowledged, Stop returns, Stop(true) leaves no future pending, a later Start comes online again. non-trivial = at least one injected failure and one forced reconnect or stop; distinct by script")
+	run.Rule("service scripts of 2-14 steps over {Subscribe/Unsubscribe on 4 topics, Publish QoS 0/1, three goroutines calling at once, push a failure mode for the next connection attempt, drop the live connection now, wait until online, Stop(false), Stop(true), Start}, clean session on and off; failure modes: dial refused, CONNECT unsendable, no CONNACK, CONNACK denied, drop after 0-3 packets (0 = during resubscribe), SUBACK with failure code, drop on the first QoS 1 publish before its PUBACK (at most 6 per script, then the fake broker is healthy). Oracle: the service comes online again (a QoS 1 probe completes within 10 s), the fake broker's subscription view for the session equals what all Subscribe/Unsubscribe calls so far imply (every call counts, in call order; the one recorded exception - an UNSUBSCRIBE that was not acknowledged before its connection ended, on a persistent session - is classified, counted and reported as KNOWN-FINDING), a completed publish future implies the broker received it, with clean session off every QoS 1 publish future completes once the resumed session's retransmission is acknowledged, Stop returns, Stop(true) leaves no future pending, a later Start comes online again. non-trivial = at least one injected failure and one forced reconnect or stop; distinct by script")
 	run.Assume("service time-outs shortened (connect/resubscribe 40 ms, disconnect 20 ms, reconnect delay 1-4 ms)", "liveness is judged by a 10 s ceiling")
 	defer run.Finish(t)
 	exec := func(c *Case) *verdict {
@@ -668,7 +679,7 @@ func TestC17(t *testing.T) {
 			}
 		}
 	}
-	run.Rapid(t, "scripts", ev.Pick(150, 6000), func(rt *rapid.T) {
+	run.Rapid(t, "scripts", ev.Pick(300, 8000), func(rt *rapid.T) {
 		c := genCase(rt)
 		if v := exec(c); v != nil {
 			run.Candidate(v.sig, v.msg, c)
